@@ -6,7 +6,7 @@
    half-sided trapezoid Fourier sum of the input at the integer frequency -k plus the complex conjugate).
    Frequencies: any field K of characteristic 0 with 2 pi abstract (as in C13). *)
 From Coq Require Import ZArith List Bool Arith QArith Qcanon Permutation.
-From QV Require Import Base.Alg Base.Sums Base.Mat Base.Dft Model.C13 Proofs.C13 Model.C11 Proofs.C11.
+From QV Require Import Base.Alg Base.Sums Base.Mat Base.Dft Model.C13 Proofs.C13 Proofs.C13gen Model.C11 Proofs.C11 Proofs.C11gen.
 Import ListNotations.
 
 (* position p of the line returned by one_transition_spectrum holds dd dt x (half-sided Fourier sum of
@@ -88,9 +88,57 @@ Theorem c11_transformed_back : forall (R : StarRing) (n : nat) (S S1 A : @mat R)
 Proof. intros R n S S1 A H. now apply transform_back. Qed.
 Print Assumptions c11_transformed_back.
 
+(* ---- exciton line shapes: the energy-gap correlation function of exciton state n+1 built by _excitonic_coft ---- *)
+(* relabelling the molecules (sites, eigenvector rows and the matrix of bath correlation functions permuted together) leaves
+   the correlation function - hence the line shape g_a(t) - of every exciton state unchanged *)
+Theorem c11_exciton_coft_relabel : forall (R : StarRing) (na : nat) sigma (S C S' C' : nat -> nat -> R) n,
+  Permutation sigma (seq 0 na) ->
+  (forall k, (k < na)%nat -> S' (k + 1)%nat (n + 1)%nat = S (nth k sigma 0%nat + 1)%nat (n + 1)%nat) ->
+  (forall k l, (k < na)%nat -> (l < na)%nat -> C' k l = C (nth k sigma 0%nat) (nth l sigma 0%nat)) ->
+  exc_coft na S' C' n = exc_coft na S C n.
+Proof. exact (@exc_coft_relabel). Qed.
+Print Assumptions c11_exciton_coft_relabel.
+
+(* independent baths: the site correlation functions enter with the fourth powers of the eigenvector COLUMN of the state *)
+Theorem c11_exciton_coft_uncorrelated : forall (R : StarRing) (na : nat) (S C : nat -> nat -> R) (c : nat -> R) n,
+  (forall k l, (k < na)%nat -> (l < na)%nat -> C k l = rmul R (c k) (delta k l)) ->
+  exc_coft na S C n = sum na (fun k => rmul R (rmul R (exc_weight S n k) (exc_weight S n k)) (c k)).
+Proof. exact (@exc_coft_uncorrelated). Qed.
+Print Assumptions c11_exciton_coft_uncorrelated.
+
+(* ---- the programs of the code (skeletons instantiated from the source on every run, Proofs/C11gen.v) ---- *)
+(* data = line(1); for ii in range(2, dim): data += line(ii)  is the model's sum of lines over the transitions 1 .. dim-1 *)
+Theorem c11_transition_loop_program : forall (R : StarRing) (hfft : list R -> list R) (dim : nat) (dt : R) (l0 : list R)
+  (line : Z -> list R) (L : nat -> R * list R) lo hi,
+  (2 <= dim)%nat -> lo = 2%Z -> hi = Z.of_nat dim ->
+  l0 = one_transition hfft (fst (L 1%nat)) dt (snd (L 1%nat)) ->
+  (forall a, (2 <= a < dim)%nat -> line (Z.of_nat a) = one_transition hfft (fst (L a)) dt (snd (L a))) ->
+  sum_skel l0 line lo hi = spectrum hfft dt (map L (seq 1 (dim - 1))).
+Proof. exact (@sum_skel_is_spectrum). Qed.
+Print Assumptions c11_transition_loop_program.
+
+(* the axis the calculators re-create, FrequencyAxis(st, Nt, do) with st = data[Nt//2] of bootstrap's shifted axis and do its
+   step, is point by point the axis of the faithful (Pinned) model - the one c11_axis_alignment_refuted is about *)
+Theorem c11_returned_axis_program : forall (K : Fld) (tp : K) s nt dt rwa w (st stp : K) (n : nat) p,
+  (1 <= nt)%nat -> freq_axis_of K tp (mkAxis s nt dt UpperHalf (f0 K)) = Some w ->
+  n = nt -> st = fadd K (point K w (nt / 2)) rwa -> stp = a_step w ->
+  returned_axis_point K tp Pinned nt dt rwa p = Some (point K (mkAxis st n stp Complete (f0 K)) p).
+Proof. exact returned_axis_is_pinned. Qed.
+Print Assumptions c11_returned_axis_program.
+
 (* ---- non-vacuity ---- *)
 (* the pinned axis exists and is off at every position, the repaired one is on (Nt = 6, exact rationals) *)
 Example c11_example_alignment :
   map (aligned Pinned (44 # 7) 6 (1 # 2) (3 # 1)) (seq 0 6) = [false; false; false; false; false; false] /\
   map (aligned Repaired (44 # 7) 6 (1 # 2) (3 # 1)) (seq 0 6) = [true; true; true; true; true; true].
 Proof. split; vm_compute; reflexivity. Qed.
+
+(* exciton correlation function of a dimer on integers: S = [[1,0,0],[0,2,1],[0,-1,2]] (columns 1, 2 = excitons), independent
+   baths c = (3, 5): state 1 gets 2^4*3 + 1^4*5 = 53, state 2 gets 1^4*3 + 2^4*5 = 83; swapping the two molecules changes nothing *)
+Example c11_example_coft :
+  let S : nat -> nat -> ZR := fun i j => nth j (nth i [[1; 0; 0]; [0; 2; 1]; [0; -1; 2]] [])%Z 0%Z in
+  let C : nat -> nat -> ZR := fun k l => nth l (nth k [[3; 0]; [0; 5]] [])%Z 0%Z in
+  let S' : nat -> nat -> ZR := fun i j => nth j (nth i [[1; 0; 0]; [0; -1; 2]; [0; 2; 1]] [])%Z 0%Z in
+  let C' : nat -> nat -> ZR := fun k l => nth l (nth k [[5; 0]; [0; 3]] [])%Z 0%Z in
+  (exc_coft 2 S C 0 = 53 /\ exc_coft 2 S C 1 = 83 /\ exc_coft 2 S' C' 0 = 53 /\ exc_coft 2 S' C' 1 = 83)%Z.
+Proof. vm_compute. repeat split; reflexivity. Qed.
